@@ -442,9 +442,9 @@ fn law_block(r: &mut Report, seed: u64, runs: u64) {
 }
 
 pub fn run(cfg: &Cfg) -> Report {
-    let n: u64 = if cfg.thorough { 400_000 } else { 16_000 };
+    let n: u64 = if cfg.thorough { 4000000 } else { 80000 };
     let seed = cfg.seed;
     let mut rep = run_sharded(&cfg.driver, cfg.threads, n, || Report::new("wsel", RULE), |d, r, i| one_case(d, r, i, seed));
-    law_block(&mut rep, seed, if cfg.thorough { 200_000 } else { 20_000 });
+    law_block(&mut rep, seed, if cfg.thorough { 1000000 } else { 50000 });
     rep
 }
